@@ -1,5 +1,5 @@
 From Coq Require Import String List.
-From GP Require Import Base.Sexp Model.MatrixInterp.
+From GP Require Import Base.Sexp Model.Gv Model.Pipeline Model.Marshal Model.MatrixInterp Model.MatrixStep.
 Import ListNotations.
 Local Open Scope string_scope.
 
@@ -13,6 +13,25 @@ Definition run (c : sexp) : sexp :=
       match transform_result (repl_of_perm (map pair_of p)) s with
       | Some o => L [A "ok"; A o]
       | None => L [A "err"]
+      end
+  | _ => A "bad-case"
+  end.
+
+(** step level: (stepdoc perm) -> ("ok" json of the step) | ("err") *)
+Definition run_step (c : sexp) : sexp :=
+  match c with
+  | L [sd; L p] =>
+      match gv_of_sexp sd with
+      | GMap m =>
+          match unm_command m with
+          | Ok st _ =>
+              match interpolate_matrix_permutation st (map pair_of p) with
+              | MOk st' => L [A "ok"; json_sexp (mj_command st')]
+              | _ => L [A "err"]
+              end
+          | Err => A "step-does-not-parse"
+          end
+      | _ => A "step-does-not-parse"
       end
   | _ => A "bad-case"
   end.
